@@ -34,7 +34,10 @@ RULE = ('a case = (kind chunk|rdb|token, retry configuration (total, connect, re
         'a string / out of scope / short signature / no prefix claim), clock T0 + offset in ms incl. the expiry second '
         'itself, fractions just after it and clocks set back, URL https-exempt loopback or plain http://localhost, fault '
         'script); all histories of 2 uses over 2 tokens x 3 entries (+ call) x 6 clock pairs plus random histories of 3-8 '
-        'uses; compared per use. Non-trivial = the '
+        'uses; compared per use. site cases = put_chunk | is_complete | mark_complete on a fresh store with a fault script '
+        'over statuses 5xx/404/403/401/400/409, reset / close / stall before the answer (answers without a body, as S3 '
+        'gives them) plus answers with a body that is cut or reset (tie only): all scripts of length <= 2 for three '
+        'budgets plus random ones. Non-trivial = the '
         'script contains at least one fault or the token is rejected; distinct by the whole canonical case.')
 ASSUMPTIONS = [
     'urllib3 2.x / requests 2.x behaviour as installed (Retry.increment/is_exhausted, urlopen status retries, '
@@ -166,6 +169,11 @@ def model_case(case):
                       for o in case['ops']]]]
     if case['kind'] == 'tokhist':
         return hist_model_case(case)
+    if case['kind'] == 'site':
+        n = 0 if case.get('empty', True) else len(pls[case['payload']]['data'])
+        if case['site'] == 'mark':
+            return [9, [6, wire_cfg(case['cfg']), case['fs']]]
+        return [9, [4 if case['site'] == 'put' else 5, wire_cfg(case['cfg']), n, case['fs']]]
     t = case['token']
     p = pls[case['payload']]
     codes = lambda s: [ord(c) for c in s]
@@ -377,6 +385,8 @@ def compare(ctx, case, mout, read_timeout=0.5, confirm=True):
         return compare_session(ctx, case, mout, read_timeout, confirm)
     if kind == 'tokhist':
         return compare_hist(ctx, case, mout, read_timeout, confirm)
+    if kind == 'site':
+        return compare_site(ctx, case, mout, read_timeout, confirm)
     case['_consumed'] = mout[1]
     if kind == 'chunk':
         case['_consumed_b'] = mout[2]
@@ -1008,6 +1018,143 @@ def hist_cases(ctx):
 
 
 # ---------------------------------------------------------------------------------------------------
+# the other request sites of the public API: put_chunk, is_complete, mark_complete
+
+def impl_site(case, read_timeout):
+    """(class | ('bool', value), request paths, log) of one call on a fresh store object."""
+    from katdal.chunkstore_s3 import S3ChunkStore
+    fake, pls = env()
+    p = pls[case['payload']]
+    a = p['array']
+    slices = tuple(slice(0, n) for n in a.shape)
+    fake.max_wait = read_timeout + 2.0
+    fake.arm([action(s) for s in case['fs']], [], 'full', b'' if case.get('empty', True) else p['data'])
+    val = None
+    try:
+        store = S3ChunkStore(fake.url, timeout=(2, read_timeout), retries=retries_of(case['cfg']))
+        if case['site'] == 'put':
+            val = store.put_chunk('bkt/arr', slices, a)
+            cls = OK if val is None else 7
+        elif case['site'] == 'complete':
+            val = store.is_complete('bkt/arr')
+            cls = OK if val is True else (10 if val is False else 7)
+        else:
+            val = store.mark_complete('bkt/arr')
+            cls = OK if val is None else 7
+    except Exception as e:
+        cls = classify_exc(e)
+    log = fake.requests()
+    return cls, log
+
+
+def compare_site(ctx, case, mout, read_timeout=0.5, confirm=True):
+    import hashlib
+    _, pls = env()
+    icls, log = impl_site(case, read_timeout)
+    site = case['site']
+    names = dict(CLASS_NAMES)
+    names[10] = 'False'
+    problems = []
+    paths = [e[2].split('?')[0] for e in log]
+    if site == 'mark':
+        mcls, nb, n = mout[0][0], mout[1], mout[2]
+        want = ['/bkt'] * nb + ['/bkt/arr/complete'] * n
+        case['_consumed'] = nb + n
+        if icls != mcls or paths != want:
+            problems.append(('tie', 'result' if icls != mcls else 'requests', icls, mcls))
+        if any(e[1] != 'PUT' for e in log):
+            problems.append(('property', 'method', icls, mcls))
+        if '/bkt/arr/complete' in paths and icls == OK and not stale_ok(paths):
+            problems.append(('property', 'marker_before_bucket', icls, mcls))
+    else:
+        if site == 'put':
+            mcls, mn, scls, sn = mout[0][0], mout[1], mout[2][0], mout[3]
+        else:
+            code = lambda r: OK if r[0] == 0 else (10 if r[0] == 1 else r[1])
+            mcls, mn, scls, sn = code(mout[0]), mout[1], code(mout[2]), mout[3]
+        case['_consumed'] = mn
+        guarded = case.get('empty', True)       # answers without a body: the counting spec applies (theorem)
+        if guarded and icls != scls:
+            problems.append(('property', 'result', icls, scls))
+        elif guarded and len(log) != sn:
+            problems.append(('property', 'requests', icls, scls))
+        if icls != mcls or len(log) != mn:
+            problems.append(('tie', 'result' if icls != mcls else 'requests', icls, mcls))
+        if site == 'put':
+            p = pls[case['payload']]
+            good = (len(p['data']), hashlib.md5(p['data']).hexdigest())
+            if any(e[1] != 'PUT' or tuple(e[4:6]) != good for e in log):
+                problems.append(('property', 'altered_upload', icls, scls))
+        elif any(e[1] != 'GET' or e[0] != 'O' for e in log):
+            problems.append(('property', 'listing_or_method', icls, scls))
+        if mcls != scls and guarded and not problems:
+            problems.append(('property', 'model_vs_spec', mcls, scls))
+    if problems and confirm and read_timeout < 2.0:
+        return compare_site(ctx, case, mout, read_timeout=2.5, confirm=False)
+    ctx.traces_validated += 1
+    if _state.get('stale'):
+        problems = [q for q in problems if q[0] == 'property']
+    if problems and len({d['signature'] for d in ctx.disagreements}) >= 30:
+        problems = []
+        ctx.count('disagreements_beyond_30_signatures')
+    for (k, what, a, b) in problems:
+        used = case['fs'][:case['_consumed']]
+        sig = 'kind=site;site=%s;answer=%s;faults=%s;what=%s;impl=%s;want=%s' % (
+            site, 'empty' if case.get('empty', True) else 'body', '+'.join(sorted({sym_kind(x) for x in used})) or 'none',
+            what, names.get(a, a), names.get(b, b))
+        ctx.disagree(sig, case, dict(result=names.get(icls, icls), requests=[(e[1], e[2]) for e in log]),
+                     dict(model=mout), '%s: implementation %s differs from %s (%s)' % (
+                         site, what, 'spec' if k == 'property' else 'model', names.get(b, b)), spec=mout, kind=k)
+    return not problems
+
+
+def stale_ok(paths):
+    """The marker is requested only after a bucket request."""
+    return paths.index('/bkt/arr/complete') > 0 and paths[0] == '/bkt'
+
+
+def site_cases(ctx):
+    rng = ctx.rng
+    _, pls = env()
+    thorough = ctx.tier == 'thorough'
+    G = list(GLITCHES)
+    cases = []
+    # no `cut after 0 bytes` of an empty answer: the server would merely close a keep-alive connection after a complete
+    # answer, and whether the NEXT request of the same call notices that in time is a race inside urllib3
+    syms = [[0, 503], [0, 500], [0, 404], [0, 403], [0, 401], [0, 400], [0, 409], [4, 0], [4, 2], [0, 502]]
+    budgets = ((1, 1), (0, 1), (2, 0)) if not thorough else tuple(itertools.product((0, 1, 2), repeat=2))
+    for site in ('put', 'complete', 'mark'):
+        for read, status in budgets:
+            for n in range(3 if not thorough else 4):
+                for fs in itertools.product(syms, repeat=n):
+                    if n == 2 and not thorough and rng.random() < 0.5:
+                        continue
+                    cases.append(dict(kind='site', site=site, cfg=[10, 1, read, status, G],
+                                      payload=rng.randrange(len(pls)), fs=[list(x) for x in fs], empty=True))
+    slow_left = [ctx.scale(6, 100)]
+    for _ in range(ctx.scale(120, 2000)):
+        opt = lambda hi: rng.choice([None] + list(range(hi + 1)) * 2)
+        cfg = [rng.choice((10, 10, None, 2, 3)), rng.choice((0, 1, 2)), opt(3), opt(3),
+               list(rng.choice([GLITCHES, GLITCHES, (503,), ()]))]
+        pi = rng.randrange(len(pls))
+        site = rng.choice(('put', 'complete', 'mark'))
+        # an answer without a body cannot be cut; a reset after it would race with the complete answer
+        empty = rng.random() < 0.7 or site == 'mark'
+        fs = []
+        for _ in range(rng.randint(1, 5)):
+            r = rng.random()
+            if r < 0.07 and slow_left[0] > 0:
+                slow_left[0] -= 1
+                fs.append([4, 1])
+            elif empty or r < 0.6:
+                fs.append(list(rng.choice(syms)))
+            else:
+                fs.append([rng.choice((1, 2)), rng.choice(offsets(pls[pi])[:-1])])
+        cases.append(dict(kind='site', site=site, cfg=cfg, payload=pi, fs=fs, empty=empty))
+    return cases
+
+
+# ---------------------------------------------------------------------------------------------------
 
 def canon(case):
     return json.dumps({k: v for k, v in case.items() if k not in ('token_str', 'url') and not k.startswith('_')},
@@ -1055,6 +1202,12 @@ def run_cases(ctx, cases):
                 if k and u['ms'] < c['uses'][k - 1]['ms']:
                     ctx.count('tokhist_clock_set_back')
             continue
+        if c['kind'] == 'site':
+            ctx.note_case(canon(c), nontrivial=bool(c['fs']), sample=c if i % 97 == 0 else None)
+            ctx.count('kind=site')
+            ctx.count('site=%s;answer=%s' % (c['site'], 'empty' if c.get('empty', True) else 'body'))
+            ctx.count('site_len=%d' % len(c['fs']))
+            continue
         nontrivial = bool(c.get('fs')) or c['kind'] == 'token'
         ctx.note_case(canon(c), nontrivial=nontrivial,
                       sample={k: v for k, v in c.items() if k not in ('token_str', 'url', 'token')} if i % 97 == 0 else None)
@@ -1097,6 +1250,7 @@ def run(ctx):
                 run_cases(ctx, [json.load(open(os.path.join(cdir, fn)))])
     run_cases(ctx, token_cases(ctx))
     run_cases(ctx, hist_cases(ctx))
+    run_cases(ctx, site_cases(ctx))
     run_cases(ctx, session_cases(ctx))
     run_cases(ctx, gen_cases(ctx))
     ctx.exhaustive = False
@@ -1106,7 +1260,7 @@ def run(ctx):
                                     ', of 3 calls over 10 call shapes' if ctx.tier == 'thorough' else ''))
     if ctx.tier == 'thorough':
         from vh import core
-        allc = gen_cases(ctx) + token_cases(ctx) + session_cases(ctx)[::7] + hist_cases(ctx)[::5]
+        allc = gen_cases(ctx) + token_cases(ctx) + session_cases(ctx)[::7] + hist_cases(ctx)[::5] + site_cases(ctx)[::9]
         sample = [model_case(c) for c in allc[::max(1, len(allc) // 250)][:250]]
         a = ctx.model(sample)
         # the clean rebuild of the thorough tier only compiled the cone of Props/C09.v: Dispatch needs every model
